@@ -96,6 +96,13 @@ func storeIdxs(t, old *Term, acc map[*Term]bool, depth int) bool {
 	if t == old {
 		return true
 	}
+	// a store at an index already written replaces (collapses) the old one
+	for o := old; o.Op == "store" && acc[o.Args[1]]; {
+		o = o.Args[0]
+		if t == o {
+			return true
+		}
+	}
 	if depth > 200 {
 		return false
 	}
@@ -139,6 +146,45 @@ func (e *Encoder) loopHeader(fr *frame, li *loopInfo, reach *Term, stIn *State) 
 	// ---- dry run to find the modified location classes
 	freshMark := c.fresh
 	mod := e.dryRun(fr, li, stIn, entry)
+	if !mod.all && len(mod.classes) > 0 {
+		// second pass with the modified classes havocked, so that store indices that
+		// depend on loop-carried heap state are recognised as such
+		st2 := stIn.clone()
+		for cl := range mod.classes {
+			old := e.get(stIn, cl, e.sorts[cl])
+			st2.m[cl] = c.Fresh("dry."+cl, old.S)
+		}
+		mod2 := e.dryRun(fr, li, st2, entry)
+		if mod2.all {
+			mod.all = true
+		}
+		for cl, idxs := range mod2.classes {
+			if prev, seen := mod.classes[cl]; !seen {
+				mod.classes[cl] = idxs
+			} else if prev == nil || idxs == nil {
+				mod.classes[cl] = nil
+			} else {
+				for k := range idxs {
+					prev[k] = true
+				}
+			}
+		}
+		for cl := range mod.classes {
+			if _, seen := mod2.classes[cl]; !seen {
+				// modified in pass 1 only (cannot normally happen): be conservative
+				mod.classes[cl] = nil
+			}
+		}
+	}
+	if debugTiming {
+		for cl, idxs := range mod.classes {
+			var xs []string
+			for ix := range idxs {
+				xs = append(xs, c.Show(ix))
+			}
+			fmt.Printf("  [loop %s#%d] modifies %s at %v (shape known: %v)\n", fr.fn.Name(), li.idx, cl, xs, idxs != nil)
+		}
+	}
 	// ---- havoc
 	ls := &loopSyms{initMap: map[*Term]*Term{}, phiComp: map[*Term]phiRef{}, clsFull: map[*Term]string{}, clsAt: map[*Term]clsIdx{}}
 	li.phiVals = map[*ssa.Phi]*SVal{}
@@ -209,6 +255,11 @@ func (e *Encoder) loopHeader(fr *frame, li *loopInfo, reach *Term, stIn *State) 
 			ls.syms = append(ls.syms, f)
 			ls.initMap[f] = old
 			ls.clsFull[f] = cl
+		}
+	}
+	for _, sy := range ls.syms {
+		if sy.S == RefS {
+			e.loopRefSyms = append(e.loopRefSyms, sy)
 		}
 	}
 	li.stH = stH
@@ -306,6 +357,7 @@ type modSet struct {
 // location classes it modifies (and, where the shape allows, at which indices).
 func (e *Encoder) dryRun(fr *frame, li *loopInfo, stIn *State, entry map[*ssa.Phi]*SVal) modSet {
 	nAss, nObl, nAlloc := len(e.assumptions), len(e.obls), e.allocN
+	nLoopRefs := len(e.loopRefSyms)
 	nRets := len(fr.rets)
 	nDef := len(fr.defers)
 	savedGuard := e.guard
@@ -332,6 +384,7 @@ func (e *Encoder) dryRun(fr *frame, li *loopInfo, stIn *State, entry map[*ssa.Ph
 		e.pure--
 		fr.dry--
 		e.assumptions = e.assumptions[:nAss]
+		e.loopRefSyms = e.loopRefSyms[:nLoopRefs]
 		e.obls = e.obls[:nObl]
 		e.allocN = nAlloc
 		fr.rets = fr.rets[:nRets]
